@@ -48,8 +48,23 @@ func genC47(seed uint64, tier string) *sim.Plan {
 			A: r.Intn(5), I: []int64{int64(r.Intn(2)), int64(r.Intn(1000)), int64(r.Intn(4096)), int64(r.Intn(5))}}
 		p.Steps = append(p.Steps, st)
 	}
+	// histories on ONE long-lived receiver-side scheme object per scheme (drawn after the steps above, which keep
+	// their arguments): a pair that just verified is checked again after the object was re-keyed, and tampered
+	// variants of it right after a success.  I[4..]: actions
+	for i, k := 0, r.Range(1, 3); i < k; i++ {
+		in := []int64{int64(r.Intn(2)), int64(r.Intn(1000)), int64(r.Intn(4096)), int64(r.Intn(5))}
+		for a, na := 0, r.Range(2, 7); a < na; a++ {
+			in = append(in, int64(r.Intn(len(c47Acts))))
+		}
+		st := sim.Step{Op: "history", A: r.Intn(5), I: in}
+		at := r.Intn(len(p.Steps) + 1)
+		p.Steps = append(p.Steps[:at], append([]sim.Step{st}, p.Steps[at:]...)...)
+	}
 	return p
 }
+
+// actions of a "history" step on the long-lived scheme object
+var c47Acts = []string{"verify-same", "rekey-other", "rekey-back", "rekey-third", "verify-flipsig", "verify-otherhash", "verify-hashtail", "verify-other-signer"}
 
 func execC47(env *sim.Env, p *sim.Plan) *sim.Result {
 	wkit.Quiet()
@@ -67,6 +82,8 @@ func execC47(env *sim.Env, p *sim.Plan) *sim.Result {
 	viol := func(oracle, sig, detail string) {
 		tr.Violate(&sim.Violation{Prop: "C47", Oracle: oracle, Sig: "C47/" + sig, Detail: detail})
 	}
+	// one receiver-side scheme object per scheme for the whole run: re-keyed with SetPublicKey, never replaced
+	lived := [2]encryption.SignatureScheme{}
 	for _, st := range p.Steps {
 		a := st.A % nc
 		sc := int(st.Int(0, 0)) % 2
@@ -153,6 +170,78 @@ func execC47(env *sim.Env, p *sim.Plan) *sim.Result {
 			}
 			tr.Event("rekey scheme=%s ok=%v", schemes[sc], ok)
 			tr.Outcome("rekey")
+			continue
+		case "history":
+			if lived[sc] == nil {
+				lived[sc] = encryption.GetSignatureScheme(schemes[sc])
+			}
+			ls := lived[sc]
+			cur := -1 // whose public key the object holds now
+			setKey := func(k int) bool {
+				if err := ls.SetPublicKey(cls[k].ss[sc].GetPublicKey()); err != nil {
+					viol("setkey", "setkey-error/"+schemes[sc], err.Error())
+					return false
+				}
+				cur = k
+				return true
+			}
+			// check: the verdict of the long-lived object must be what the statement says for the key it holds
+			// now, whatever it verified before
+			check := func(what, s, h string, expect bool) {
+				ok, verr := ls.Verify(s, h)
+				ok = ok && verr == nil
+				tr.Event("history %s scheme=%s signer=%d key=%d ok=%v", what, schemes[sc], a, cur, ok)
+				tr.Outcome(fmt.Sprintf("history/%s/%v", what, ok))
+				switch {
+				case expect && !ok:
+					viol("verify-history", "history/honest-rejected/"+schemes[sc], fmt.Sprintf("%s: a valid signature is rejected by a long-lived scheme object holding the signer's key (err=%v)", what, verr))
+				case !expect && ok:
+					viol("verify-history", "history/"+what+"-accepted/"+schemes[sc], fmt.Sprintf("%s: verified by a long-lived scheme object although the signature is not one of the key it holds for this hash (signer %d, key of %d)", what, a, cur))
+				}
+			}
+			other := (a + 1 + int(st.Int(3, 0))%max(nc-1, 1)) % nc
+			third := (other + 1) % nc
+			if !setKey(a) {
+				continue
+			}
+			check("verify-first", sig, msg, true)
+			for k := 4; k < len(st.I); k++ {
+				act := c47Acts[int(st.I[k])%len(c47Acts)]
+				switch act {
+				case "verify-same":
+					if cur != a {
+						tr.Fault("same_pair_after_rekey")
+					}
+					check(map[bool]string{true: "same-pair", false: "same-pair-after-rekey"}[cur == a], sig, msg, cur == a)
+				case "rekey-other", "rekey-back", "rekey-third":
+					to := map[string]int{"rekey-other": other, "rekey-back": a, "rekey-third": third}[act]
+					if !setKey(to) {
+						break
+					}
+					tr.Fault("scheme_object_rekeyed")
+					// the pair that verified under the signer's key, checked right after the key changed
+					check(map[bool]string{true: "same-pair", false: "same-pair-after-rekey"}[cur == a], sig, msg, cur == a)
+				case "verify-flipsig":
+					b, _ := hex.DecodeString(sig)
+					bit := int(st.Int(2, 0)) % (len(b) * 8)
+					b[bit/8] ^= 1 << (bit % 8)
+					tr.Fault("tamper_signature_after_success")
+					check("flipsig", hex.EncodeToString(b), msg, false)
+				case "verify-otherhash":
+					tr.Fault("tamper_hash_after_success")
+					check("otherhash", sig, encryption.Hash(fmt.Sprintf("msg-%d", st.Int(1, 0)+1)), false)
+				case "verify-hashtail":
+					tr.Fault("tamper_hash_after_success")
+					check("hashtail", sig, msg+[]string{"0", "f", "zz", "00", " "}[int(st.Int(2, 0))%5], false)
+				case "verify-other-signer":
+					// a valid signature of another client over the same hash: valid exactly under that client's key
+					osig, err := cls[other].ss[sc].Sign(msg)
+					if err == nil && other != a {
+						check(map[bool]string{true: "other-signer-own-key", false: "other-signer"}[cur == other], osig, msg, cur == other)
+					}
+				}
+			}
+			tr.Outcome("history")
 			continue
 		case "xscheme":
 			// same owner, signature of the other scheme delivered with this scheme's key
